@@ -1,3 +1,4 @@
 pub mod alloc;
+pub mod filters;
 pub mod hashers;
 pub mod rng;
